@@ -3,7 +3,10 @@
      c12_pp <ast>   -> hex of ppb_module a          (the text asn1c -E must print)
      c12_rt <ast>   -> "wf=<b> lex=<b> parse=<b>"   (wf_module a, lex (ppb a) = pp a,
                                                        parse (pp a) prints back to pp a / ppb a)
-     c12_cycle <ast> -> hex of ppb (parse (lex (ppb a)))  or FAIL *)
+     c12_cycle <ast> -> hex of ppb (parse (lex (ppb a)))  or FAIL
+     c12_names <k> (<module> <n> <id>*n)*k -> "OK name name ..." (C names of all top-level
+                       expressions in module/member order, Fix/NameClash.cnames_c) or "FATAL"
+     c12_names_first … -> the same under the asymmetric rule cnames_first (spec-side only) *)
 open Model
 open Drvlib
 
@@ -116,8 +119,33 @@ let read_module (args : string list) : module_ast =
   if !toks <> [] then raise (Bad "trailing input");
   { m_name = name; m_tags = td; m_extimpl = ei; m_assigns = assigns }
 
+let native_of_str (s : str) =
+  let b = Buffer.create 32 in
+  let rec go = function SNil -> () | SCons (a, s') -> Buffer.add_char b (char_of_ascii a); go s' in
+  go s; Buffer.contents b
+
+let read_nmods (args : string list) =
+  let toks = ref args in
+  let next () = match !toks with [] -> raise (Bad "eof") | x :: r -> toks := r; x in
+  let rec times n f = if n <= 0 then [] else let x = f () in x :: times (n - 1) f in
+  let k = int_of_string (next ()) in
+  let ms = times k (fun () ->
+    let name = str_of_native (next ()) in
+    let n = int_of_string (next ()) in
+    (name, times n (fun () -> str_of_native (next ())))) in
+  if !toks <> [] then raise (Bad "trailing input");
+  ms
+
 let dispatch cmd args =
   match cmd with
+  | "c12_names" ->
+      (try (match cnames_c (read_nmods args) with
+            | None -> Some "FATAL"
+            | Some l -> Some (Stdlib.String.concat " " ("OK" :: List.map native_of_str l)))
+       with Bad s -> Some ("BADAST " ^ s))
+  | "c12_names_first" ->
+      (try Some (Stdlib.String.concat " " ("OK" :: List.map native_of_str (cnames_first (read_nmods args))))
+       with Bad s -> Some ("BADAST " ^ s))
   | "c12_pp" -> (try Some (hex_of_str (ppb_module (read_module args))) with Bad s -> Some ("BADAST " ^ s))
   | "c12_rt" ->
       (try
